@@ -16,7 +16,7 @@ DEFAULT_OB_TIMEOUT_S = 20.0
 
 
 class Result:
-    __slots__ = ("name", "status", "how", "time", "model", "smt2", "note", "path", "occ")
+    __slots__ = ("name", "status", "how", "time", "model", "smt2", "note", "path", "occ", "q")
 
     def __init__(self, name, status, how="", t=0.0, model=None, smt2=None, note=""):
         self.name = name; self.status = status; self.how = how; self.time = t
@@ -253,7 +253,7 @@ def flush(ctx):
             return
     for (r, q, to) in pend:
         x = _decide_and_pack(ctx, r.name, q, to, None)
-        r.status, r.how, r.time, r.model, r.smt2 = x.status, x.how, x.time, x.model, x.smt2
+        r.status, r.how, r.time, r.model, r.smt2, r.q = x.status, x.how, x.time, x.model, x.smt2, x.q
 
 
 def _decide_and_pack(ctx, name, Q, timeout, upto, cvc5=None):
@@ -264,6 +264,7 @@ def _decide_and_pack(ctx, name, Q, timeout, upto, cvc5=None):
     negQ = z3.Not(Q)
     status, how, model, smt2 = decide(ctx, hyps, negQ, [Q], timeout, upto=upto, want_cvc5=ctx.opts.get("cvc5", True) if cvc5 is None else cvc5)
     r = Result(name, status, how, time.time() - t0, model, None)
+    r.q = Q if status == "cex" else None
     if ctx.opts.get("keep_smt2") or status != "discharged":
         r.smt2 = smt2
     else:
@@ -296,3 +297,25 @@ def path_model(ctx, timeout_s=10.0):
     hyps = list(ctx.pre) + ctx.path_cond()
     status, how, model, smt2 = decide(ctx, hyps, z3.BoolVal(True), hyps, timeout_s, want_cvc5=False)
     return model if status == "cex" else None
+
+
+def dyadic_models(ctx, Q, timeout_s=6.0):
+    """further counterexample candidates whose real inputs are dyadic rationals m/2^k (exactly representable as
+    doubles, so a witness that sits on a boundary in exact arithmetic still sits on it when replayed)"""
+    hyps = list(ctx.pre) + ctx.path_cond()
+    for k in (2, 5, 9):
+        s = z3.Solver()
+        s.set("timeout", int(timeout_s * 1000))
+        for h in hyps: s.add(h)
+        for d in ctx.defs:
+            for c in d.cons: s.add(c)
+        if Q is not None:
+            s.add(z3.Not(Q))
+        for name in ctx.input_order:
+            v = ctx.inputs[name]
+            if z3.is_bool(v):
+                continue
+            m = z3.Int("dy!%s" % name)
+            s.add(v * (2 ** k) == z3.ToReal(m)); s.add(m >= -(2 ** (k + 8))); s.add(m <= 2 ** (k + 8))
+        if s.check() == z3.sat:
+            yield extract_inputs(ctx, s.model())
